@@ -17,6 +17,18 @@ import (
 func init() { streams["chan"] = streamChan }
 
 // runChanScript executes src with a goroutine-safe probe recorder and a deadline.
+// chanHangs counts the runs that ended by their time limit; after a few of them the stream stops starting new runs
+// (each costs its full limit; the hangs already recorded are the finding)
+var chanHangs int
+
+func chanAbort(o *Out) bool {
+	if chanHangs >= 3 {
+		o.Sum.Hist["runs-not-started-after-3-hangs"]++
+		return true
+	}
+	return false
+}
+
 func runChanScript(src string, limit time.Duration) (val interface{}, err error, trace []string, timedOut bool, panicked interface{}) {
 	e := env.NewEnv()
 	var mu sync.Mutex
@@ -38,6 +50,7 @@ func runChanScript(src string, limit time.Duration) (val interface{}, err error,
 	}()
 	if ctx.Err() != nil {
 		timedOut = true
+		chanHangs++
 	}
 	mu.Lock()
 	defer mu.Unlock()
@@ -140,6 +153,9 @@ func streamChan(o *Out, r *rand.Rand, n int, thorough bool) {
 			}
 		}
 		req.WriteString(")")
+		if chanAbort(o) {
+			continue
+		}
 		_, err, trace, timedOut, panicked := runChanScript(src.String(), 5*time.Second)
 		o.Sum.Hist[fmt.Sprintf("hist:cap%d:%s", capN, typ)]++
 		// the model line: results in the model's vocabulary
@@ -212,8 +228,41 @@ func streamChan(o *Out, r *rand.Rand, n int, thorough bool) {
 			its[i] = fmt.Sprint(v)
 		}
 		fmt.Fprintf(&src, "items = [%s]\ngo func() {\nfor v in items {\nc0 <- v\n}\nclose(c0)\n}()\n", strings.Join(its, ", "))
+		// the stages: closures, or named functions started with `go f(args)` - 4 parameters, 6 parameters, a variadic
+		// tail, arguments read from list elements that are overwritten right after the go statement, a spawning loop
+		style := r.Intn(7)
+		o.Sum.Hist[fmt.Sprintf("pipeline:style%d", style)]++
+		src.WriteString("func st4(inp, out, a, b) {\nfor x in inp {\nout <- x * a + b\n}\nclose(out)\n}\n")
+		src.WriteString("func st6(inp, out, a, b, tag, z) {\nfor x in inp {\nout <- x * a + b + z\n}\nclose(out)\n}\n")
+		src.WriteString("func stv(inp, out, ab...) {\nfor x in inp {\nout <- x * ab[0] + ab[1]\n}\nclose(out)\n}\n")
+		if style >= 5 {
+			cs, as, bs := make([]string, k+1), make([]string, k), make([]string, k)
+			for i := range cs {
+				cs[i] = fmt.Sprintf("c%d", i)
+			}
+			for i, s := range stages {
+				as[i], bs[i] = fmt.Sprint(s.a), fmt.Sprint(s.b)
+			}
+			fmt.Fprintf(&src, "chs = [%s]\nas = [%s]\nbs = [%s]\n", strings.Join(cs, ", "), strings.Join(as, ", "), strings.Join(bs, ", "))
+			call := "go st6(chs[i], chs[i + 1], as[i], bs[i], \"t\", 0)"
+			if style == 6 {
+				call = "go stv(chs[i], chs[i + 1], as[i], bs[i])\nas[i] = 0\nbs[i] = 0"
+			}
+			fmt.Fprintf(&src, "for i = 0; i < %d; i++ {\n%s\n}\n", k, call)
+		}
 		for i, s := range stages {
-			fmt.Fprintf(&src, "go func() {\nfor x in c%d {\nc%d <- x * %d + %d\n}\nclose(c%d)\n}()\n", i, i+1, s.a, s.b, i+1)
+			switch style {
+			case 0:
+				fmt.Fprintf(&src, "go func() {\nfor x in c%d {\nc%d <- x * %d + %d\n}\nclose(c%d)\n}()\n", i, i+1, s.a, s.b, i+1)
+			case 1:
+				fmt.Fprintf(&src, "go st4(c%d, c%d, %d, %d)\n", i, i+1, s.a, s.b)
+			case 2:
+				fmt.Fprintf(&src, "go st6(c%d, c%d, %d, %d, \"t\", 0)\n", i, i+1, s.a, s.b)
+			case 3:
+				fmt.Fprintf(&src, "go stv(c%d, c%d, %d, %d)\n", i, i+1, s.a, s.b)
+			case 4:
+				fmt.Fprintf(&src, "cfg = [%d, %d, c%d, c%d]\ngo st4(cfg[2], cfg[3], cfg[0], cfg[1])\ncfg[0] = 0\ncfg[1] = 0\ncfg[2] = nil\ncfg[3] = nil\n", s.a, s.b, i, i+1)
+			}
 		}
 		fmt.Fprintf(&src, "res = []\nfor x in c%d {\nres += x\n}\nres\n", k)
 		want := make([]interface{}, len(items))
@@ -242,6 +291,9 @@ func streamChan(o *Out, r *rand.Rand, n int, thorough bool) {
 		for _, p := range procs {
 			runtime.GOMAXPROCS(p)
 			for rep := 0; rep < reps; rep++ {
+				if chanAbort(o) {
+					continue
+				}
 				val, err, _, timedOut, panicked := runChanScript(src.String(), 10*time.Second)
 				o.Sum.Evaluations++
 				o.Sum.Hist[fmt.Sprintf("pipeline:procs%d", p)]++
@@ -293,6 +345,9 @@ func streamChan(o *Out, r *rand.Rand, n int, thorough bool) {
 		for _, p := range []int{2, 4, 16} {
 			runtime.GOMAXPROCS(p)
 			for rep := 0; rep < 2*reps; rep++ {
+				if chanAbort(o) {
+					continue
+				}
 				val, err, _, timedOut, panicked := runChanScript(src.String(), 20*time.Second)
 				o.Sum.Evaluations++
 				o.Sum.Hist[fmt.Sprintf("fan-in:procs%d", p)]++
@@ -332,6 +387,11 @@ func streamChan(o *Out, r *rand.Rand, n int, thorough bool) {
 	// (3) templates
 	templates := []struct{ name, src, want string }{
 		{"go-args-captured", "c = make(chan int64, 1)\nx = 1\ngo func(a) {\nc <- a\n}(x)\nx = 2\n<-c", "1"},
+		{"go-args-element-copied", "c = make(chan int64, 1)\njobs = [7]\ngo func(a) {\nc <- a\n}(jobs[0])\njobs[0] = -1\n<-c", "7"},
+		{"go-args-element-copied-named", "c = make(chan int64, 1)\nfunc w(a, out) {\nout <- a\n}\njobs = [7]\ngo w(jobs[0], c)\njobs[0] = -1\n<-c", "7"},
+		{"go-args-fan-out-6-params", "c = make(chan int64, 8)\nfunc w(out, id, p, q, r, s) {\nout <- id\n}\nfor i = 0; i < 8; i++ {\ngo w(c, i, 1, 0, \"w\", nil)\n}\nt = 0\nfor i = 0; i < 8; i++ {\nt += 1 << (<-c)\n}\nt", "255"},
+		{"go-args-fan-out-variadic", "c = make(chan int64, 8)\nfunc w(out, ids...) {\nout <- ids[0]\n}\nfor i = 0; i < 8; i++ {\ngo w(c, i, i)\n}\nt = 0\nfor i = 0; i < 8; i++ {\nt += 1 << (<-c)\n}\nt", "255"},
+		{"go-args-map-member-copied", "c = make(chan int64, 1)\nst = {\"next\": 5}\ngo func(a) {\nc <- a\n}(st.next)\nst.next = 6\n<-c", "5"},
 		{"go-args-before-start", "c = make(chan int64)\ngo func(a, b) {\nc <- a + b\n}(probe(1), probe(2))\nprobe(3)\n<-c", "3"},
 		{"convert-float-to-int64-chan", "c = make(chan int64, 1)\nc <- 2.0\n<-c", "2"},
 		{"convert-int-to-float-chan", "c = make(chan float64, 1)\nc <- 2\n<-c", "2"},
@@ -345,6 +405,9 @@ func streamChan(o *Out, r *rand.Rand, n int, thorough bool) {
 	for _, t := range templates {
 		for _, p := range procs {
 			runtime.GOMAXPROCS(p)
+			if chanAbort(o) {
+				continue
+			}
 			val, err, trace, timedOut, panicked := runChanScript(t.src, 5*time.Second)
 			o.Sum.Evaluations++
 			o.Sum.Hist["template"]++
